@@ -1,6 +1,7 @@
 package vc
 
 import (
+	"sync"
 	"fmt"
 	"go/token"
 	"go/types"
@@ -526,7 +527,10 @@ func (c *fctx) havocAssigns(fr *frame, ct *spec.FuncContract, e *env, st *state,
 			}
 			// only the cells rooted at w.root change
 			inner := strings.TrimSuffix(strings.TrimPrefix(w.sort, "(Array Int "), ")")
-			if in, ok := locInner[w.key]; ok {
+			locMu.RLock()
+			in, ok := locInner[w.key]
+			locMu.RUnlock()
+			if ok {
 				inner = in
 			}
 			nv := c.fresh("hv", inner)
@@ -538,7 +542,9 @@ func (c *fctx) havocAssigns(fr *frame, ct *spec.FuncContract, e *env, st *state,
 type locWrite struct{ key, sort, root string }
 
 // locInner: sort of one cell for ghost-state regions (regions not indexed by Int), by key.
+// (package-level, shared by the programs the selftest verifies in parallel: guarded by locMu)
 var locInner = map[string]string{}
+var locMu sync.RWMutex
 
 // locWrites interprets one assigns location: a pointer (all fields of the pointee), a slice
 // (its backing array), a map (its entries), or x.f (one field).
@@ -580,7 +586,9 @@ func (c *fctx) locWrites(e *env, loc spec.Expr) []locWrite {
 					return nil
 				}
 				a := e.tr(cl.Args[0])
+				locMu.Lock()
 				locInner["X:"+pf.Name] = rs
+				locMu.Unlock()
 				return []locWrite{{"X:" + pf.Name, "(Array " + ps + " " + rs + ")", a.t}}
 			}
 		}
